@@ -101,6 +101,7 @@ def scenario(eng, case, front):
         acc = acc + g
         T.append(acc)
     app, face = appenv.make_app(front)
+    shared_param = [enc.InterestParam()]
     VR = list(types.ValidResult)
     outcomes = [None] * nI
     tasks = [None] * nI
@@ -125,7 +126,13 @@ def scenario(eng, case, front):
         it = ints[i]
         name = C['inames'][it['name']]
         try:
-            if front == 'v2':
+            if front == 'v2' and case.get('shared_param'):
+                # the caller keeps ONE InterestParam object and re-uses it (documented keyword interest_param=):
+                # what an earlier Interest was expressed with must not change when the object is changed later
+                sp = shared_param[0]
+                sp.lifetime, sp.can_be_prefix, sp.nonce = it['life'], bool(it['cbp']), 1000 + i
+                n, content, ctx = await app.express(name, v2_validator(i), interest_param=sp)
+            elif front == 'v2':
                 n, content, ctx = await app.express(name, v2_validator(i), lifetime=it['life'], can_be_prefix=it['cbp'],
                                                     nonce=1000 + i)
             else:
@@ -402,6 +409,10 @@ def cases(tier, seed):
             # two events: timing-focused families (kinds restricted; the legacy front-end gets the smaller menu in quick)
             add(front, 2, 2, 'xxee', [[1], [1, 0]], [1], [['data'], ['data']], 60)
             add(front, 2, 2, 'xexe', [[1], [1]], [1], [['nack', 'cancel'] if front == 'v2' else ['nack'], ['data', 'nack']], 60)
+            if front == 'v2':
+                case = {'I': 2, 'E': 1, 'order': 'xxe', 'verdicts': [3], 'inames': [[0, 1], [1, 0]], 'dnames': [1, 3],
+                        'kinds': [['data']], 'shared_param': True}
+                cs.append((front, case, {'weight': 40, 'split_depth': 5}))
             if front == 'v2':
                 # Data for the first Interest, a second Interest for the same name while the first one's validator
                 # is still running (its deadline may pass meanwhile), then Data again
